@@ -388,7 +388,7 @@ func (ck *checker) exhaustive() {
 	for i := range us {
 		names[i] = us[i].Name
 	}
-	c.Set("exhaustive", map[string]interface{}{
+	c.Set("exhaustive_subspace", map[string]interface{}{
 		"exhaustive":        true,
 		"sub_space":         "all 2-batch histories: 4-key universe, per batch every key in {untouched,set v1,set v2,delete} (256 x 256 per universe), from the empty trie",
 		"universes":         names,
